@@ -142,16 +142,71 @@ func ruleRC3() Rule {
 			})
 			// AL1b / AL1c
 			isAssign := c.fn("parser.(*lexer).isAssign")
-			allowedCallers := map[string]bool{"parser.(*lexer).lexSimpleCmd": true, "parser.(*lexer).lexCmdPrefix": true, "parser.(*lexer).lexFor": true,
-				"parser.(*lexer).lexCase": true, "parser.(*lexer).scanToken": true}
+			// A command-name or reserved-word position is where the lexer also asks
+			// whether the word is an assignment (isAssign) or a reserved word (tr);
+			// the alias-continuation position is where the call is conditional on the
+			// flag copied from the exhausted alias's `blank` field.
+			trFn := c.fn("parser.(*lexer).tr")
+			blankF := c.fieldVar("parser", "alias", "blank")
+			isPosition := func(g *core.Func, calls []*ast.CallExpr) (bool, string) {
+				gi := g.Info()
+				if len(c.callsTo(g, isAssign)) > 0 || (trFn != nil && len(c.callsTo(g, trFn)) > 0) {
+					return true, "the function also looks for an assignment or a reserved word here: a command-name position"
+				}
+				// every call gated by a boolean that was read from alias.blank
+				all := len(calls) > 0
+				for _, call := range calls {
+					gated := false
+					var top ast.Expr = call
+					for {
+						p, ok := c.P.Parent(top).(ast.Expr)
+						if !ok {
+							break
+						}
+						top = p
+					}
+					conds := []ast.Expr{top}
+					for _, gd := range guardsOf(c.P, call, nil) {
+						if gd.pos {
+							conds = append(conds, gd.cond)
+						}
+					}
+					for _, cd := range conds {
+						for _, cj := range conj(cd) {
+							id, ok := ast.Unparen(cj).(*ast.Ident)
+							if !ok {
+								continue
+							}
+							obj := gi.Uses[id]
+							ast.Inspect(g.Root().Body, func(x ast.Node) bool {
+								as, ok := x.(*ast.AssignStmt)
+								if !ok || len(as.Lhs) != 1 || len(as.Rhs) != 1 {
+									return true
+								}
+								if l, ok := as.Lhs[0].(*ast.Ident); ok && (gi.Uses[l] == obj || gi.Defs[l] == obj) && blankF != nil && core.FieldOf(gi, as.Rhs[0]) == blankF {
+									gated = true
+								}
+								return true
+							})
+						}
+					}
+					if !gated {
+						all = false
+					}
+				}
+				if all {
+					return true, "conditional on the blank flag of the alias just exhausted: the alias-continuation position"
+				}
+				return false, ""
+			}
 			for _, g := range c.funcsOfPkg("parser", false) {
 				sc := c.callsTo(g, f)
 				if len(sc) == 0 {
 					continue
 				}
 				key := g.Name + "|calls subst"
-				if allowedCallers[g.Name] {
-					rr.OK(g, key, sc[0].Pos(), "position", "a command-name or alias-continuation position")
+				if ok, why := isPosition(g, sc); ok {
+					rr.OK(g, key, sc[0].Pos(), "position", why)
 				} else {
 					rr.Bad(g, key, sc[0].Pos(), "alias substitution is attempted from "+g.Short+", which is not a command-name or alias-continuation position: words in other positions would be replaced")
 				}
@@ -673,13 +728,24 @@ func ruleRC6() Rule {
 
 func ruleHD() Rule {
 	return Rule{ID: "HD", Kind: "must", Floor: 4,
-		Doc: "in the here-document body reader: the delimiter comparison depends on the redirection's operator (<<- strips leading tabs, HD1); `$`, backquote and backslash are interpreted only under `!quoted`, and quoted is set exactly when a part of the delimiter word is a Quote (HD2); a delimiter candidate must start in column 1 (HD4)",
+		Doc: "in the here-document body reader (lexHeredoc and the private helpers its code lives in): the delimiter comparison depends on the redirection's operator (<<- strips leading tabs, HD1); `$`, backquote and backslash are interpreted only under `!quoted`, and quoted is set exactly when a part of the delimiter word is a Quote (HD2) and belongs to one here-document (HD2b); a delimiter candidate must start in column 1 (HD4)",
 		Run: func(c *Ctx, rr *core.RuleResult) {
 			f := c.mustFn(rr, "parser.(*lexer).lexHeredoc")
 			if f == nil {
 				return
 			}
-			funcs := append([]*core.Func{f}, f.Lits...)
+			var funcs []*core.Func
+			var addWithLits func(g *core.Func)
+			addWithLits = func(g *core.Func) {
+				funcs = append(funcs, g)
+				for _, l := range g.Lits {
+					addWithLits(l)
+				}
+			}
+			for _, g := range c.region(f) {
+				addWithLits(g)
+			}
+			printFn := c.fn("parser.(*lexer).print")
 			foundCmp := false
 			for _, g := range funcs {
 				info := g.Info()
@@ -695,8 +761,8 @@ func ruleHD() Rule {
 							return false
 						}
 						obj := info.Uses[id]
-						// a string parameter of the enclosing literal, or a local bound to the printed delimiter
-						if g.Lit != nil && g.Type.Params != nil {
+						// a string parameter of the helper or closure, or a local bound to the printed delimiter
+						if g != f && g.Type.Params != nil {
 							for _, fld := range g.Type.Params.List {
 								for _, nm := range fld.Names {
 									if info.Defs[nm] == obj {
@@ -705,9 +771,27 @@ func ruleHD() Rule {
 								}
 							}
 						}
-						return boundToCallOf(c, f, obj, c.fn("parser.(*lexer).print"))
+						return boundToCallOf(c, g, obj, printFn)
 					}
 					if !isDelim(be.Y) && !isDelim(be.X) {
+						return true
+					}
+					// the other side must be a printed candidate (or a transformation of one)
+					other := be.X
+					if isDelim(be.X) {
+						other = be.Y
+					}
+					printed := false
+					ast.Inspect(other, func(x ast.Node) bool {
+						if id, ok := x.(*ast.Ident); ok && boundToCallOf(c, g, info.Uses[id], printFn) {
+							printed = true
+						}
+						if call, ok := x.(*ast.CallExpr); ok && c.callsFunc(info, call, printFn) {
+							printed = true
+						}
+						return true
+					})
+					if !printed {
 						return true
 					}
 					// the whole condition this comparison belongs to
@@ -775,9 +859,9 @@ func ruleHD() Rule {
 			if !foundCmp {
 				rr.Unk(f, f.Name+"|delimiter test", f.Pos(), "no comparison with the delimiter string found")
 			}
-			// HD2: the flag is the boolean local whose negation guards the interpreting calls
-			info := f.Info()
+			// HD2: the flag is the boolean variable whose negation guards the interpreting calls
 			var quotedObj types.Object
+			var quotedFn *core.Func
 			interpFns := map[*core.Func]string{}
 			for _, n := range []string{"parser.(*lexer).scanParamExp", "parser.(*lexer).scanCmdSubst", "parser.(*lexer).esc"} {
 				if g := c.fn(n); g != nil {
@@ -785,36 +869,42 @@ func ruleHD() Rule {
 				}
 			}
 			type icall struct {
+				g    *core.Func
 				call *ast.CallExpr
 				name string
 			}
 			var icalls []icall
-			f.OwnNodes(func(n ast.Node) bool {
-				call, ok := n.(*ast.CallExpr)
-				if !ok {
-					return true
-				}
-				fo := core.StaticCallee(info, call)
-				if fo == nil {
-					return true
-				}
-				if nm, ok := interpFns[c.P.FuncOf(fo)]; ok {
-					icalls = append(icalls, icall{call, nm})
-					for _, gd := range guardsOf(c.P, call, nil) {
-						if id, isID := ast.Unparen(gd.cond).(*ast.Ident); isID && !gd.pos {
-							if v, isVar := info.Uses[id].(*types.Var); isVar && v.Type().String() == "bool" && quotedObj == nil {
-								quotedObj = v
+			for _, g := range funcs {
+				info := g.Info()
+				g.OwnNodes(func(n ast.Node) bool {
+					call, ok := n.(*ast.CallExpr)
+					if !ok {
+						return true
+					}
+					fo := core.StaticCallee(info, call)
+					if fo == nil {
+						return true
+					}
+					if nm, ok := interpFns[c.P.FuncOf(fo)]; ok {
+						icalls = append(icalls, icall{g, call, nm})
+						for _, gd := range guardsOf(c.P, call, nil) {
+							if id, isID := ast.Unparen(gd.cond).(*ast.Ident); isID && !gd.pos {
+								if v, isVar := info.Uses[id].(*types.Var); isVar && v.Type().String() == "bool" && quotedObj == nil {
+									quotedObj = v
+									quotedFn = g
+								}
 							}
 						}
 					}
-				}
-				return true
-			})
+					return true
+				})
+			}
 			if len(icalls) == 0 {
 				rr.Unk(f, f.Name+"|quoted flag", f.Pos(), "the body reader calls none of scanParamExp / scanCmdSubst / esc")
 				return
 			}
 			for _, ic := range icalls {
+				info := ic.g.Info()
 				key := f.Name + "|" + ic.name + " under !quoted"
 				ok := false
 				for _, gd := range guardsOf(c.P, ic.call, nil) {
@@ -823,99 +913,173 @@ func ruleHD() Rule {
 					}
 				}
 				if ok {
-					rr.OK(f, key, ic.call.Pos(), "unquoted-only", "expansions in the body are scanned only when no part of the delimiter was quoted")
+					rr.OK(ic.g, key, ic.call.Pos(), "unquoted-only", "expansions in the body are scanned only when no part of the delimiter was quoted")
 				} else {
-					rr.Bad(f, key, ic.call.Pos(), "the body is scanned for expansions without testing that the delimiter was unquoted: a here-document with a quoted delimiter is not kept literal")
+					rr.Bad(ic.g, key, ic.call.Pos(), "the body is scanned for expansions without testing that the delimiter was unquoted: a here-document with a quoted delimiter is not kept literal")
 				}
 			}
 			if quotedObj == nil {
 				return
 			}
-			nset := 0
-			f.OwnNodes(func(n ast.Node) bool {
-				as, ok := n.(*ast.AssignStmt)
-				if !ok || len(as.Lhs) != 1 {
-					return true
-				}
-				id, ok := as.Lhs[0].(*ast.Ident)
-				if !ok || info.Uses[id] != quotedObj {
-					return true
-				}
-				if tv, has := info.Types[as.Rhs[0]]; has && tv.Value != nil && tv.Value.String() == "false" {
-					return true // a reset, examined by HD2b below
-				}
-				nset++
-				key := f.Name + "|quoted set for a Quote part"
-				okQ := false
-				for x := c.P.Parent(as); x != nil; x = c.P.Parent(x) {
-					if ifs, isIf := x.(*ast.IfStmt); isIf && ifs.Init != nil {
-						if ia, isAs := ifs.Init.(*ast.AssignStmt); isAs && len(ia.Rhs) == 1 {
-							if ta, isTA := ia.Rhs[0].(*ast.TypeAssertExpr); isTA && ta.Type != nil && namedTypeName(info.Types[ta.Type].Type) == "*ast.Quote" {
-								okQ = true
+			// the flag's producers: the variable itself and, when it is bound to a
+			// result of a helper (`delim, quoted := l.heredocDelim(h)`), that result
+			flags := map[types.Object]*core.Func{quotedObj: quotedFn}
+			{
+				info := quotedFn.Info()
+				ast.Inspect(quotedFn.Root().Body, func(n ast.Node) bool {
+					as, ok := n.(*ast.AssignStmt)
+					if !ok || len(as.Rhs) != 1 {
+						return true
+					}
+					call, ok := as.Rhs[0].(*ast.CallExpr)
+					if !ok {
+						return true
+					}
+					for i, l := range as.Lhs {
+						id, ok := l.(*ast.Ident)
+						if !ok || (info.Defs[id] != quotedObj && info.Uses[id] != quotedObj) {
+							continue
+						}
+						if fo := core.StaticCallee(info, call); fo != nil {
+							if h := c.P.FuncOf(fo); h != nil && h.Type.Results != nil {
+								k := 0
+								for _, fld := range h.Type.Results.List {
+									for _, nm := range fld.Names {
+										if k == i {
+											if o := h.Info().Defs[nm]; o != nil {
+												flags[o] = h
+											}
+										}
+										k++
+									}
+								}
 							}
 						}
 					}
-				}
-				if okQ && exprStr(as.Rhs[0]) == "true" {
-					rr.OK(f, key, as.Pos(), "quote-part", "set exactly when a part of the delimiter word is quoted")
-				} else {
-					rr.Bad(f, key, as.Pos(), "`quoted` is not set under a test that a delimiter part is an *ast.Quote")
-				}
-				return true
-			})
+					return true
+				})
+			}
+			nset := 0
+			for obj, g := range flags {
+				info := g.Info()
+				ast.Inspect(g.Root().Body, func(n ast.Node) bool {
+					as, ok := n.(*ast.AssignStmt)
+					if !ok || len(as.Lhs) != 1 || len(as.Rhs) != 1 {
+						return true
+					}
+					id, ok := as.Lhs[0].(*ast.Ident)
+					if !ok || info.Uses[id] != obj {
+						return true
+					}
+					if tv, has := info.Types[as.Rhs[0]]; has && tv.Value != nil && tv.Value.String() == "false" {
+						return true // a reset, examined by HD2b below
+					}
+					nset++
+					key := f.Name + "|quoted set for a Quote part"
+					okQ := false
+					for x := c.P.Parent(as); x != nil; x = c.P.Parent(x) {
+						if ifs, isIf := x.(*ast.IfStmt); isIf && ifs.Init != nil {
+							if ia, isAs := ifs.Init.(*ast.AssignStmt); isAs && len(ia.Rhs) == 1 {
+								if ta, isTA := ia.Rhs[0].(*ast.TypeAssertExpr); isTA && ta.Type != nil && namedTypeName(info.Types[ta.Type].Type) == "*ast.Quote" {
+									okQ = true
+								}
+							}
+						}
+						if cc, isCC := x.(*ast.CaseClause); isCC {
+							if ts, isTS := c.P.Parent(c.P.Parent(cc)).(*ast.TypeSwitchStmt); isTS && ts != nil {
+								for _, e := range cc.List {
+									if namedTypeName(info.Types[e].Type) == "*ast.Quote" && len(cc.List) == 1 {
+										okQ = true
+									}
+								}
+							}
+						}
+					}
+					if okQ && exprStr(as.Rhs[0]) == "true" {
+						rr.OK(g, key, as.Pos(), "quote-part", "set exactly when a part of the delimiter word is quoted")
+					} else {
+						rr.Bad(g, key, as.Pos(), "`quoted` is not set under a test that a delimiter part is an *ast.Quote")
+					}
+					return true
+				})
+			}
 			if nset == 0 {
 				rr.Bad(f, f.Name+"|quoted set for a Quote part", f.Pos(), "`quoted` is never set: a quoted delimiter does not make the body literal")
 			}
-			// HD2b: the flag belongs to one here-document.  It is declared inside the
-			// loop that takes the pending redirections one by one, or cleared by a
-			// statement of that loop's body before the delimiter is examined.
+			// HD2b: the flag belongs to one here-document.
 			popFn := c.fn("parser.(*heredoc).pop")
 			var loop *ast.ForStmt
-			f.OwnNodes(func(n ast.Node) bool {
-				fs, ok := n.(*ast.ForStmt)
-				if ok && loop == nil && fs.Init != nil && c.callsFunc(info, fs.Init, popFn) {
-					loop = fs
-				}
-				return true
-			})
+			var loopFn *core.Func
+			for _, g := range funcs {
+				info := g.Info()
+				g.OwnNodes(func(n ast.Node) bool {
+					fs, ok := n.(*ast.ForStmt)
+					if ok && loop == nil && fs.Init != nil && c.callsFunc(info, fs.Init, popFn) {
+						loop = fs
+						loopFn = g
+					}
+					return true
+				})
+			}
 			key := f.Name + "|quoted is per here-document"
 			// a clearing assignment anywhere else than the head of that loop's body
 			// makes the rest of a quoted here-document expand
-			f.OwnNodes(func(n ast.Node) bool {
-				as, ok := n.(*ast.AssignStmt)
-				if !ok || len(as.Lhs) != 1 || len(as.Rhs) != 1 {
-					return true
-				}
-				id, ok := as.Lhs[0].(*ast.Ident)
-				if !ok || info.Uses[id] != quotedObj {
-					return true
-				}
-				if tv, has := info.Types[as.Rhs[0]]; !has || tv.Value == nil || tv.Value.String() != "false" {
-					return true
-				}
-				atHead := false
-				if loop != nil {
-					for _, st := range loop.Body.List {
-						if st == ast.Stmt(as) {
-							atHead = true
-						}
-						if _, isRange := st.(*ast.RangeStmt); isRange {
-							break
+			for obj, g := range flags {
+				info := g.Info()
+				ast.Inspect(g.Root().Body, func(n ast.Node) bool {
+					as, ok := n.(*ast.AssignStmt)
+					if !ok || len(as.Lhs) != 1 || len(as.Rhs) != 1 {
+						return true
+					}
+					id, ok := as.Lhs[0].(*ast.Ident)
+					if !ok || info.Uses[id] != obj {
+						return true
+					}
+					if tv, has := info.Types[as.Rhs[0]]; !has || tv.Value == nil || tv.Value.String() != "false" {
+						return true
+					}
+					atHead := false
+					if loop != nil {
+						for _, st := range loop.Body.List {
+							if st == ast.Stmt(as) {
+								atHead = true
+							}
+							if _, isRange := st.(*ast.RangeStmt); isRange {
+								break
+							}
 						}
 					}
-				}
-				if !atHead {
-					rr.Bad(f, f.Name+"|quoted cleared only between here-documents", as.Pos(), "`quoted` is cleared while a here-document is being read: the rest of a body with a quoted delimiter is scanned for expansions")
-				}
-				return true
-			})
+					if !atHead {
+						rr.Bad(g, f.Name+"|quoted cleared only between here-documents", as.Pos(), "`quoted` is cleared while a here-document is being read: the rest of a body with a quoted delimiter is scanned for expansions")
+					}
+					return true
+				})
+			}
+			// declared in a helper that the loop calls once per here-document?
+			perCall := false
+			if loop != nil && quotedFn.Root() != loopFn.Root() {
+				cg := c.P.CG()
+				ast.Inspect(loop.Body, func(n ast.Node) bool {
+					if call, ok := n.(*ast.CallExpr); ok {
+						for _, h := range cg.Callees(loopFn, call) {
+							if h == quotedFn.Root() || cg.ReachableStop(func(x *core.Func) bool { return !c.inRegion(f.Name, x) }, h)[quotedFn.Root()] {
+								perCall = true
+							}
+						}
+					}
+					return true
+				})
+			}
 			switch {
 			case loop == nil:
 				rr.Unk(f, key, f.Pos(), "no loop taking pending here-documents with pop() found")
+			case perCall:
+				rr.OK(quotedFn, key, quotedObj.Pos(), "fresh", "a local of a helper called once per here-document, so it starts false for each")
 			case quotedObj.Pos() >= loop.Body.Pos() && quotedObj.Pos() < loop.Body.End():
 				rr.OK(f, key, quotedObj.Pos(), "fresh", "declared inside the per-here-document loop, so it starts false for each")
 			default:
 				reset := false
+				info := loopFn.Info()
 				for _, st := range loop.Body.List {
 					if as, ok := st.(*ast.AssignStmt); ok && len(as.Lhs) == 1 && len(as.Rhs) == 1 {
 						if id, ok := as.Lhs[0].(*ast.Ident); ok && info.Uses[id] == quotedObj {
@@ -1100,7 +1264,19 @@ func boundToCallOf(c *Ctx, f *core.Func, obj types.Object, g *core.Func) bool {
 	info := f.Info()
 	ast.Inspect(f.Root().Body, func(n ast.Node) bool {
 		as, ok := n.(*ast.AssignStmt)
-		if !ok || len(as.Lhs) != len(as.Rhs) {
+		if !ok {
+			return true
+		}
+		// r, err := g(): every left-hand side is bound to the one call
+		if len(as.Rhs) == 1 && len(as.Lhs) > 1 {
+			for _, l := range as.Lhs {
+				if id, ok := l.(*ast.Ident); ok && (info.Defs[id] == obj || info.Uses[id] == obj) && c.callsFunc(info, as.Rhs[0], g) {
+					found = true
+				}
+			}
+			return true
+		}
+		if len(as.Lhs) != len(as.Rhs) {
 			return true
 		}
 		for i, l := range as.Lhs {
